@@ -412,14 +412,14 @@ static rc::Gen<Case> gen_heap(int tier) {
 typedef std::pair<int64_t, int64_t> TV;  // (sec, usec), lexicographic order = time order
 static const int64_t SECLIM = (int64_t)1 << 40;
 
-static TV tv_norm(int64_t sec, int64_t usec) {  // soundness: 0 <= usec < 10^6, sec >= 0
+static TV tv_norm(int64_t sec, int64_t usec) {  // soundness: 0 <= usec < 10^6; seconds of either sign (a timeval before the clock's origin is still a time)
   if (usec < 0 || usec > 999999) {
     int64_t q = usec / 1000000;
     usec -= q * 1000000;
     if (usec < 0) usec += 1000000, q--;
     sec += q;
   }
-  if (sec < 0) return TV(0, 0);
+  if (sec < -SECLIM) sec = -SECLIM;
   if (sec > SECLIM) sec = SECLIM;
   return TV(sec, usec);
 }
@@ -532,7 +532,7 @@ static Outcome run_tq(const Case &c) {
     return true;
   };
   auto query_time = [&](const Op &op, size_t base) -> TV {  // mode 0 absolute, 1 relative to the least time (usec offset)
-    if (uarg(op, base, 2) == 0) return tv_norm(std::max<int64_t>(0, std::min(arg(op, base + 1), SECLIM)), arg(op, base + 2) % 1000000);
+    if (uarg(op, base, 2) == 0) return tv_norm(std::max<int64_t>(-SECLIM, std::min(arg(op, base + 1), SECLIM)), arg(op, base + 2) % 1000000);
     TV l = times.empty() ? TV(0, 0) : *times.begin();
     int64_t off = std::max<int64_t>(-4000000, std::min<int64_t>(arg(op, base + 1), 4000000000LL));
     return tv_norm(l.first, l.second + off);
@@ -544,7 +544,8 @@ static Outcome run_tq(const Case &c) {
     opno++;
     size_t n = livev.size();
     if (op.k == "add") {
-      TV t = tv_norm(std::max<int64_t>(0, std::min(arg(op, 0), SECLIM)), arg(op, 1));
+      TV t = tv_norm(std::max<int64_t>(-SECLIM, std::min(arg(op, 0), SECLIM)), arg(op, 1));
+      if (t.first < 0) o.cls("negative-seconds");
       opname = "add(" + tvs(t) + ")";
       add1(t);
       check();
@@ -635,7 +636,8 @@ static Outcome run_tq(const Case &c) {
 }
 
 static rc::Gen<std::pair<int64_t, int64_t>> gen_tv() {
-  auto sec = rc::gen::weightedOneOf<int64_t>({{8, range<int64_t>(0, 3)}, {2, range<int64_t>(0, 100)}, {1, range<int64_t>(0, 2000000000)}});
+  auto sec = rc::gen::weightedOneOf<int64_t>({{8, range<int64_t>(0, 3)}, {2, range<int64_t>(0, 100)}, {1, range<int64_t>(0, 2000000000)}, {2, range<int64_t>(-3, 2)}, {1, range<int64_t>(-2000000000, 0)},
+                                              {1, rc::gen::elementOf(std::vector<int64_t>{2147483647, 2147483648LL, 4294967295LL, 4294967296LL, 4294967299LL, -2147483648LL, -2147483649LL})}});
   auto usec = rc::gen::weightedOneOf<int64_t>(
       {{5, rc::gen::elementOf(std::vector<int64_t>{0, 0, 1, 2, 499999, 500000, 999998, 999999})}, {3, range<int64_t>(0, 999999)}});
   return rc::gen::pair(sec, usec);
